@@ -403,6 +403,9 @@ def same_key(k1: Any, k2: Any) -> bool:
     elif isinstance(k1, AbstractDateTime) and isinstance(k2, AbstractDateTime) \
             and not isinstance(k1, type(k2)) and not isinstance(k2, type(k1)):
         return False  # e.g. an xs:date and an xs:dateTime or an xs:gYear are never deep-equal
+    elif isinstance(k1, AbstractDateTime) and isinstance(k2, AbstractDateTime) \
+            and (k1.tzinfo is None) ^ (k2.tzinfo is None):
+        return False  # the implicit timezone is not used: both or neither have a timezone
 
     try:
         return True if k1 == k2 else False
